@@ -1,5 +1,102 @@
-import PV.Model.Prefetch
+/-
+  C28 — Prefetched and vectored SFTP reads return exactly the file's bytes.
+  Property theorems only.  Model: PV/Model/Prefetch.lean (reader, prefetch threads, short-reading server; one
+  action = one atomic region; `run s acts` = the state after the schedule `acts`, any length, any interleaving).
+  Invariant proofs: PV/Model/PrefetchInv.lean, PV/Model/PrefetchLive.lean.
+-/
+import PV.Model.PrefetchLive
+import PV.Generated.C28
 namespace PV.Props.C28
 open PV PV.Prefetch
-theorem placeholder : True := trivial
+
+/-- Every prefetch buffer holds true file content at its offset — after any schedule of any operations
+    (any chunk lists: overlapping, unordered, beyond EOF; any caps; any short reads `serve k`). -/
+theorem buffers_hold_file_content (file : Bytes) (maxReq : Nat) (hm : 0 < maxReq) (acts : List Act) :
+    ∀ e ∈ (run (init file maxReq) acts).bufs, e.2 = slice file e.1 e.2.length := by
+  intro e he
+  have hi := run_inv (init_inv file maxReq hm) acts
+  have hf : (run (init file maxReq) acts).file = file := run_file _ _
+  have := hi.base.bufs e he
+  rw [hf] at this
+  exact this
+
+/-- **Reads are exact.**  Every completed `read(n)` that started at position `p` returned `file[p : p+n]`
+    (Python slicing: truncated at end of file), and every completed `read()` returned `file[p:]` —
+    for every schedule, every program of prefetch/readv/seek/read, every cap, every short-read choice. -/
+theorem reads_exact (file : Bytes) (maxReq : Nat) (hm : 0 < maxReq) (acts : List Act) :
+    ∀ e ∈ (run (init file maxReq) acts).out,
+      e.2.2 = (match e.2.1 with | some n => slice file e.1 n | none => file.drop e.1) := by
+  intro e he
+  have hi := run_inv (init_inv file maxReq hm) acts
+  have := hi.base.out e he
+  rw [run_file] at this
+  exact this
+
+/-- the theorem instantiated at paramiko's real request size (generated from the source) -/
+theorem reads_exact_paramiko (file : Bytes) (acts : List Act) :
+    ∀ e ∈ (run (init file PV.Generated.C28.maxRequestSize) acts).out,
+      e.2.2 = (match e.2.1 with | some n => slice file e.1 n | none => file.drop e.1) :=
+  reads_exact file _ (by decide) acts
+
+/-- non-vacuity: a concrete schedule in which a capped readv with a beyond-EOF chunk first (the input that hung
+    before the fix) completes both reads with the right bytes. -/
+example :
+    (run (init [10, 11, 12, 13, 14, 15, 16, 17] 4)
+      [.rOp (.readv [(20, 3), (2, 3)] (some 1)), .tCheck 0, .tAlloc 0, .tSend 0, .tReg 0, .serve 3,
+       .rOp (.seek 20), .rOp (.read (some 3)), .rStep, .rStep, .rStep, .rStep, .serve 3, .rStep,
+       .rOp (.seek 2), .rOp (.read (some 3)), .rStep, .rStep, .serve 2, .rStep, .rStep, .rStep, .serve 9, .rStep]).out
+      = [(20, some 3, []), (2, some 3, [12, 13, 14])] := by decide
+
+
+/-! ## no hang -/
+
+/-- **A reader that waits for a response is never stuck** (partial: see below).  After any schedule of any
+    program whose caps are `None` or ≥ 1: if the reader is blocked waiting for a response packet (inside
+    `_read_prefetch` or inside a synchronous read) and none is queued, then some other task — the server or a
+    prefetch thread — is enabled.  Before the fix this failed: a STATUS answer left its extent behind, so with
+    nothing in flight the reader waited and a capped prefetch thread spun.
+    Partial because one other blocking point of the reader is not covered: the spin in `_async_response` that waits
+    for `_prefetch_thread` to register the extent of an answer that has already arrived (the thread is between
+    "packet sent" and "extent registered" then; showing that it is *that* thread needs request-number uniqueness,
+    which is not part of the invariant). -/
+theorem waiting_reader_not_stuck_partial (file : Bytes) (maxReq : Nat) (acts : List Act)
+    (hcaps : ∀ a ∈ acts, actOK a) (hw : WaitsForResponse (run (init file maxReq) acts)) :
+    ∃ a, nonReader a ∧ (step (run (init file maxReq) acts) a).isSome = true :=
+  waiting_not_stuck (run_live (init_live file maxReq) acts hcaps) hw
+
+/-- The other tasks cannot keep running for ever without the reader: every non-reader action strictly decreases
+    the measure `mu` (7 per chunk still to be requested, 2 per request on the wire, 1 per queued response). -/
+theorem nonreader_actions_decrease_measure (s s' : St) (a : Act) (hn : nonReader a) (h : step s a = some s') :
+    mu s' < mu s :=
+  nonReader_step_decreases hn h
+
+/-- **Bounded wait.**  From any reachable state, let the server and the prefetch threads run (any interleaving,
+    every action enabled when taken): that takes at most `mu` steps, and once none of them can move the reader is
+    not waiting for a response — so under any fair schedule a waiting reader gets its answer. -/
+theorem bounded_wait_partial (file : Bytes) (maxReq : Nat) (acts : List Act) (hcaps : ∀ a ∈ acts, actOK a)
+    (others : List Act) (ho : ∀ a ∈ others, nonReader a) (s' : St)
+    (hrun : runStrict (run (init file maxReq) acts) others = some s') :
+    others.length ≤ mu (run (init file maxReq) acts) ∧
+    ((∀ a, nonReader a → step s' a = none) → ¬ WaitsForResponse s') := by
+  constructor
+  · have := nonReader_run_bounded ho hrun
+    omega
+  · intro hnone hw
+    have hl := runStrict_live (run_live (init_live file maxReq) acts hcaps)
+      (fun a ha => nonReader_actOK (ho a ha)) hrun
+    obtain ⟨a, ha, hen⟩ := waiting_not_stuck hl hw
+    rw [hnone a ha] at hen
+    cases hen
+
+/-- non-vacuity: a reachable state in which the reader does wait for a response (capped readv, first chunk beyond
+    EOF, nothing answered yet), and the enabled peer the theorem promises. -/
+example :
+    WaitsForResponse (run (init [1, 2, 3, 4, 5, 6, 7, 8] 4)
+      [.rOp (.readv [(20, 3), (2, 3)] (some 1)), .tCheck 0, .tAlloc 0, .tSend 0, .tReg 0,
+       .rOp (.seek 20), .rOp (.read (some 3))]) ∧
+    (step (run (init [1, 2, 3, 4, 5, 6, 7, 8] 4)
+      [.rOp (.readv [(20, 3), (2, 3)] (some 1)), .tCheck 0, .tAlloc 0, .tSend 0, .tReg 0,
+       .rOp (.seek 20), .rOp (.read (some 3))]) (.serve 1)).isSome = true := by
+  refine ⟨⟨by decide, Or.inl ⟨⟨20, some 3, [], 3⟩, by decide⟩⟩, by decide⟩
+
 end PV.Props.C28
